@@ -85,21 +85,9 @@ Definition conn_read (n : nat) (c : conn) : list N * conn :=
   let c1 := match c_buf c with [] => deliver c | _ :: _ => c end in
   (firstn n (c_buf c1), mkConn (skipn n (c_buf c1)) (c_pending c1) (c_sched c1)).
 
-(* DataStream.read_file: read(4096) until b''; returns the chunks written to the
-   file; None = out of fuel *)
-Fixpoint read_file (n : nat) (fuel : nat) (c : conn) : option (list (list N) * conn) :=
-  match fuel with
-  | O => None
-  | S f =>
-      let '(d, c1) := conn_read n c in
-      match d with
-      | [] => Some ([], c1)
-      | _ :: _ =>
-          match read_file n f c1 with
-          | None => None
-          | Some (ds, c2) => Some (d :: ds, c2)
-          end
-      end
-  end.
-
-Definition read_file_fuel (c : conn) : nat := S (S (length (stream c))).
+(* bytes that arrive while nobody waits for them: the event loop calls
+   feed_data on this connection's StreamReader while the client task is
+   suspended elsewhere; they go from the wire into the buffer.  The segmentation
+   oracle is untouched. *)
+Definition push (k : nat) (c : conn) : conn :=
+  mkConn (c_buf c ++ firstn k (c_pending c)) (skipn k (c_pending c)) (c_sched c).
